@@ -21,6 +21,7 @@ def run_target(ctx, stage, script, runs, max_len, seed):
     env = dict(os.environ)
     env["PYTHONPATH"] = "%s:%s" % (env.get("VERIF_REPO", "/repo"), ROOT)
     env.pop("PYTHONHASHSEED", None)
+    env["TMPDIR"] = work                 # scratch directories of the target live (and die) inside ours
     cmd = [PYVT, os.path.join(ROOT, "fuzz", script), "-runs=%d" % runs, "-seed=%d" % (seed % 2147483647 or 1),
            "-max_len=%d" % max_len, "-print_final_stats=1", "-verbosity=0"]
     try:
